@@ -64,7 +64,7 @@ def run_attack(cfg, out):
         if sum(1 for v in out["violations"] if v["mechanism"] == mech) < 5:
             out["violations"].append({"mechanism": mech, "msg": msg, "case_key": [cfg["seed"], cfg["shard"]], "case": {"shard": cfg["shard"]}})
 
-    with T.Run(r, mtu=cfg["mtu"], blocklist=set(blocked_ips), bitfield=False, light=True,
+    with T.Run(r, mtu=cfg["mtu"], blocklist=set(blocked_ips), bitfield=False, light=True, blocklist_after_construction=(cfg["shard"] % 4 < 2),
                ctxt_setup=lambda ctxt: ctxt.setTempConnectionTimeout(r.choice([0.5, 2.0]))) as run:
         w = run.world
         P = run.C.Packet
